@@ -512,6 +512,10 @@ def match_known(prop, text):
     """a known finding matches when all of its `match_all` substrings occur in the description of the failure"""
     for k in known_findings():
         if k.get('status') == 'known' and k['property'] == prop and all(s in text for s in k.get('match_all', [])):
+            if 'rows' in k:
+                m = re.search(r'row=([0-9,]+)', text)
+                if not m or m.group(1) not in k['rows']:
+                    continue
             return k
     return None
 
